@@ -212,7 +212,7 @@ def edit_ops(rng, b, s, bias=None):
     pts = [p for p in b.points if p]
     metrics = b.info.get("metrics") or []
     kind = rng.choice(["metric", "metric", "cons", "lmi", "func_cons", "part_cons", "remove_cons", "more_samples",
-                       "param"])
+                       "param", "late_cons", "late_cons", "metric_replace"])
     if bias and rng.random() < 0.6:
         kind = bias
     tag = "ed%d_" % s
@@ -237,6 +237,21 @@ def edit_ops(rng, b, s, bias=None):
         e = tag + "e"
         ops.append({"op": "sq", "out": e, "a": rng.choice(pts)})
         ops.append({"op": "cons", "out": tag + "c", "lhs": e, "rel": "<=", "rhs": 9.5e3, "target": b.parts[0]})
+    elif kind == "late_cons" and pts:
+        # a constraint built and *evaluated* after a solve it was not part of, then added to the model
+        e = tag + "le"
+        ops.append({"op": "sq", "out": e, "a": rng.choice(pts)})
+        ops.append({"op": "cons", "out": tag + "lc", "lhs": e, "rel": rng.choice(["<=", ">="]),
+                    "rhs": rng.choice([8.5e3, 0.05, 1.0]) if False else 8.5e3})
+        ops[-1]["rel"] = "<="
+        ops.append({"op": "eval", "h": tag + "lc"})
+        ops.append({"op": "attach", "c": tag + "lc", "target": b.P})
+    elif kind == "metric_replace" and len(metrics) >= 1:
+        # replace the list of metrics (not an append): drop all, declare a rescaled copy of the first one
+        e = tag + "mr"
+        ops.append({"op": "edit", "P": b.P, "what": "clear_metrics"})
+        ops.append({"op": "elin", "out": e, "terms": [[metrics[0], float("%.3g" % rng.uniform(0.4, 1.6))]]})
+        ops.append({"op": "metric", "P": b.P, "e": e})
     elif kind == "param" and b.info.get("main_f"):
         fop = next((o for o in b.ops if o["op"] == "func" and o["out"] == b.info["main_f"]), None)
         if fop and "L" in (fop.get("params") or {}):
